@@ -93,6 +93,17 @@ CLAIMED["C16"] = dict(
     technique="contract-based verification of the linker and of the metadata producer/consumer pair (exhaustive finite import graphs, counting loader)",
     design="DESIGN.md section 4 (C16)")
 
+CLAIMED["C06"] = dict(
+    text="Proof of component contracts: totality -- for every instruction class of the IR (one shape per subclass, by reflection) and every load/store x scope of variable accesses, the real generator either appends code or raises, never drops the instruction; per-handler simulation -- for every (opcode, operand types) the emitted wasm sequence is executed under wasmsem (a transcription of the 1.0 semantics and validation rules of the ~25 opcodes the generator can emit) on symbolic operands and z3 proves it well-typed, stack-balanced and equal to IRsem wrapped to 32 bits, with constant operands included; argument loads, returns, constants (i32.const immediates decode signed: C19). A bounded grid of programs is validated and executed by wasmtime against the VM.",
+    note="Trusted: wasmsem (hand transcription), CPython, pyvc, z3; floats as reals ('to single precision' assumed). Straight-line composition of the per-instruction simulation is a paper argument. Known finding D22c.",
+    technique="contract-based deductive verification: per-handler simulation relation against a reference semantics of the target (z3), totality over the instruction class table",
+    design="DESIGN.md section 4 (C06)")
+CLAIMED["C07"] = dict(
+    text="Proof of component contracts: section framing and LEB128 sizes/indices (C19 obligations), preamble and ascending section order of Module.WriteTo (section writers cut by recorders), Code.AddLocal/Encode over all local type sequences of length 0-5 (returned index = number of locals before, declared groups expand to the added sequence), function type conversion (only i32/f32, void -> no result), module structure after generating 1-3 functions (function/type/code counts, type indices in range, export i -> function i), per-handler stack typing under the 1.0 validation rules (C06.sem well-typed / stack-balanced clauses). A bounded grid of emitted binaries is validated by wasmtime.",
+    note="Trusted: wasmsem validation table, CPython, pyvc, z3. No whole-binary validator in the proof (wasmtime validates only the bounded grid). Known finding D22c (non-scalar types).",
+    technique="contract-based deductive verification: structural contracts on the module builder, per-handler stack typing, byte-level framing proofs",
+    design="DESIGN.md section 4 (C07)")
+
 NOT_YET = "not built yet in this round (design in DESIGN.md section 4); will be claimed when its obligations run"
 NA = {
     "C17": "pickle round trip across processes is the whole property; no contract within reach of the technique can decide it (DESIGN.md section 5)",
